@@ -94,7 +94,7 @@ def reprefix(p, p2, q):
 
 
 # defects repaired in /repo (fix: commits aca8b22 0750142 f003354 85f4db6): their triggers are generated again
-REPAIRED = {"D11", "D12", "N4", "N11"}
+REPAIRED = {"D11", "D12", "N4", "N11", "N10"}
 
 
 class Mirror:
@@ -322,7 +322,11 @@ class Mirror:
             s2 = copy.deepcopy(s)
             s2["bases"] = [reprefix(p, p2, b) for b in s["bases"]]
             m.sp[reprefix(p, p2, q)] = s2
-        m.adj = nx.relabel_nodes(self.adj, {q: reprefix(p, p2, q) for q in self.adj.nodes}, copy=True)
+        # rename_space relabels the nodes of the manager's graph IN PLACE (nx.relabel_nodes(..., copy=False): a
+        # relabelled node moves to the end of the node order and its edges to the end of the adjacency lists, which
+        # is the order D3's edge_bfs follows later)
+        m.adj = self.adj.copy()
+        nx.relabel_nodes(m.adj, {q: reprefix(p, p2, q) for q in self.adj.nodes if is_prefix(p, q)}, copy=False)
         m.inputs = {(reprefix(p, p2, q), n) for q, n in self.inputs}
         return ACCEPTED, m
 
